@@ -13,11 +13,13 @@
     tables, the four output bytes there are the word `w`, `decode32 w = some i`, and `eligible i = false`.
 -/
 import BB.Lemmas.CompressLeft
+import BB.Lemmas.LayoutAnchor
 import BB.Props.C20
 import BB.Props.C11
 namespace BB.Props.C20
 open BB BB.Spec BB.Lemmas
 open BB.Props.C03 (Land Finish)
+open BB.Props.C04 (Layout layoutOf)
 
 /-- **C20, pass level: no eligible literal instruction is left uncompressed.** -/
 theorem no_eligible_left (H : Hooks) (constants : Dict) (items : List Item) (p : Int) (labels : Dict)
@@ -56,28 +58,31 @@ theorem no_eligible_left_pass (H : Hooks) (constants : Dict) (items : List Item)
   simp only [maybeCompress, if_true, transformCompressible] at h
   exact no_eligible_left H constants items 0 labels out labels' h hmem hnaj hwk hfree L q hres hden hacc
 
-/-- **C20, program level (membership form).**  In a successful `-c` run, let `items7` be the list
-    held after resolve_aligns (`Land`: resolved item by item against the returned tables into the
-    blobs of the output).  Every instruction of `items7` that is not the jalr of an auipc pair, is
+/-- **C20, program level (membership form).**  In a successful `-c` run, `lay.aligned` — where
+    `layoutOf H true items = .ok lay`, a function of the inputs (Props/C04) — is the list held after
+    resolve_aligns (`Land`: resolved item by item against the returned tables into the blobs of the
+    output).  Every instruction of `lay.aligned` that is not the jalr of an auipc pair, is
     well-kinded and label-free, and names (read at ANY tables / position) an accepted instruction
     `i`, has `eligible i = false`. -/
 theorem assemble_kept_not_eligible (H : Hooks) (items : List Item) (r : AsmResult)
     (h : assembleItems H true items [] [] = .ok r) :
-    ∃ items7 out : List Item, Expands items items7 ∧ Land H r.constants r.labels 0 items7 out ∧
-      r.bytes = blobBytes out ∧
-      ∀ line ins, Item.instr line ins ∈ items7 → ins.isAuipcJump = false → ins.wellKinded = true →
+    ∃ (lay : Layout) (out : List Item), layoutOf H true items = .ok lay ∧ lay.labels = r.labels ∧
+      lay.constants = r.constants ∧ Land H r.constants r.labels 0 lay.aligned out ∧ r.bytes = blobBytes out ∧
+      ∀ line ins, Item.instr line ins ∈ lay.aligned → ins.isAuipcJump = false → ins.wellKinded = true →
         (∀ imm, ins.imm? = some imm → ImmLabelFree H r.constants imm) →
         ∀ (L : Dict) (q : Int) (rins : Instr) (i : Instr32),
           resolveWith (evalAt H (chainGet r.constants L) line q) ins = some rins → denote32I rins = some i →
           (∃ args w, rins.args = some args ∧ encode rins.name args = .ok w) → eligible i = false := by
-  obtain ⟨items5, items6, items7, out, labels4, labels6, _, e7, h6, h7, hland, hbytes⟩ := assemble_stages H true items r h
-  refine ⟨items7, out, e7, hland, hbytes, ?_⟩
+  obtain ⟨items1, items2, items3, items4, items6, items7, out, labels2, labels3, labels4, labels6, hlay, e7, h1, h2, h3, h4,
+    h6, h7, hland, hbytes⟩ := assemble_anchor H true items r h
+  refine ⟨⟨items6, items7, r.constants, r.labels⟩, out, hlay, rfl, rfl, hland, hbytes, ?_⟩
   intro line ins hmem hnaj hwk hfree L q rins i hres hden hacc
+  simp only at hmem
   have hmem6 := align_pass_instrs items6 0 labels6 items7 r.labels h7 line ins hmem
-  exact no_eligible_left_pass H r.constants items5 labels4 items6 labels6 h6 hmem6 hnaj hwk hfree L q hres hden hacc
+  exact no_eligible_left_pass H r.constants _ labels4 items6 labels6 h6 hmem6 hnaj hwk hfree L q hres hden hacc
 
 /-- **C20, program level: in the output of a `-c` run no literal instruction that stayed 32-bit is the
-    expansion of a legal RVC instruction.**  For item `i` of the list held after resolve_aligns, if it is
+    expansion of a legal RVC instruction.**  For item `i` of `lay.aligned` (the list held after resolve_aligns), if it is
     an instruction that is not the jalr of an auipc pair, is well-kinded (hence 4 bytes) and has a
     label-free immediate, then — all read off the run — it resolves at its own byte offset `off`
     against the returned tables to `rins`; the four output bytes at `off` are the little-endian word
@@ -85,9 +90,9 @@ theorem assemble_kept_not_eligible (H : Hooks) (items : List Item) (r : AsmResul
     eligible. -/
 theorem assemble_no_eligible_literal_left (H : Hooks) (items : List Item) (r : AsmResult)
     (h : assembleItems H true items [] [] = .ok r) :
-    ∃ items7 out : List Item, Expands items items7 ∧ Land H r.constants r.labels 0 items7 out ∧
-      r.bytes = blobBytes out ∧
-      ∀ (i : Nat) (hi : i < items7.length) line ins, items7[i] = .instr line ins →
+    ∃ (lay : Layout) (out : List Item), layoutOf H true items = .ok lay ∧ lay.labels = r.labels ∧
+      lay.constants = r.constants ∧ Land H r.constants r.labels 0 lay.aligned out ∧ r.bytes = blobBytes out ∧
+      ∀ (i : Nat) (hi : i < lay.aligned.length) line ins, lay.aligned[i] = .instr line ins →
         ins.isAuipcJump = false → ins.wellKinded = true →
         (∀ imm, ins.imm? = some imm → ImmLabelFree H r.constants imm) →
         ∃ (rins : Instr) (w : Nat) (i32 : Instr32),
@@ -95,8 +100,8 @@ theorem assemble_no_eligible_literal_left (H : Hooks) (items : List Item) (r : A
             = some rins ∧
           (r.bytes.drop (blobBytes (out.take i)).length).take 4 = leBytes 4 w ∧
           decode32 w = some i32 ∧ denote32I rins = some i32 ∧ eligible i32 = false := by
-  obtain ⟨items7, out, e7, hland, hbytes, hall⟩ := assemble_kept_not_eligible H items r h
-  refine ⟨items7, out, e7, hland, hbytes, ?_⟩
+  obtain ⟨lay, out, hlay, hL, hC, hland, hbytes, hall⟩ := assemble_kept_not_eligible H items r h
+  refine ⟨lay, out, hlay, hL, hC, hland, hbytes, ?_⟩
   intro i hi line ins hit hnaj hwk hfree
   obtain ⟨it', line', d, _, hbody, hfin, hslice⟩ := hland.at i hi
   rw [hit] at hbody
@@ -114,7 +119,7 @@ theorem assemble_no_eligible_literal_left (H : Hooks) (items : List Item) (r : A
     have hl : d.length = 4 := by rw [hd, leBytes_length]
     rw [hl] at hslice
     rw [hslice]; exact hd
-  · have hmem : Item.instr line ins ∈ items7 := by rw [← hit]; exact List.getElem_mem hi
+  · have hmem : Item.instr line ins ∈ lay.aligned := by rw [← hit]; exact List.getElem_mem hi
     exact hall line ins hmem hnaj hwk hfree r.labels _ rins i32 hres hden ⟨args, w, ha, he⟩
 
 /-- with the front end's evaluator (`H.arith = evalArith`, as in `textHooks`) an integer literal —
